@@ -145,6 +145,17 @@ def _update(h, g):
 
 def _subscribe(h, g):
     if not h.symbolic:
+        rec = zone_record(h, g, "r_")
+        w, sock, subs, zone = make_zone(h, g, rec)
+
+        async def s(*a, **k):
+            pass
+        before = set(zone._subscribers)   # the recording subscriber of the native world
+        zone.subscribe(s)
+        zone.subscribe(s)
+        h.oblige("subscribing twice registers the callable once (set semantics)", set(zone._subscribers) - before == {s} and len(zone._subscribers) == len(before) + 1)
+        zone.unsubscribe(s)
+        h.oblige("unsubscribing removes it", set(zone._subscribers) == before)
         return
     from pyvc.world import SubscriberModel
     rec = zone_record(h, g, "r_")
